@@ -256,6 +256,12 @@ fn run_plan(cx: &Cx, plan: &[StepPlan], eof: bool, benign: (bool, u64, bool)) ->
     let clock = SimClock::default();
     let mut wire = ScriptWire::new(cx, clock.clone(), vec![]);
     wire.timeout_when_empty = !eof;
+    // every byte of a reply takes a little (simulated) time to arrive: nothing, one character time, 3 ms
+    wire.sim_read_latency_ns = match benign.1 {
+        0 => 0,
+        6 => 520_833,
+        _ => 3_000_000,
+    };
     wire.frag = benign.0;
     wire.eintr_den = benign.1;
     wire.short_writes = benign.2;
@@ -655,6 +661,8 @@ impl Scenario for C18 {
         wire.sim_read_latency_ns = *cx.pick(&[0u64, 520_833, 5_000_000]);
         let real_latency = cx.chance(1, 48);
         let real_idle = !long_poll && cx.chance(1, 6000);
+        // one sequence in 1500: the far end takes 55-125 ms of REAL time to answer one of the requests
+        let slow_reply_at = if !long_poll && !long_clean && cx.chance(1, 1500) { Some(cx.draw(n)) } else { None };
         let slow_write = cx.chance(1, 1500);
         // a tree that flushes the port meets a port whose flush can fail once (the unchanged tree never flushes)
         if cx.chance(1, 6) {
@@ -709,6 +717,12 @@ impl Scenario for C18 {
             if real_latency && matches!(&replies[i], Some(Message::ReportState(_, State::PageLoadInProgress | State::PageShowInProgress))) {
                 shared.lock().real_delay_next_read = Some(Duration::from_millis(2 + cx.draw(3)));
                 cx.probe("reply_with_real_latency");
+            }
+            let mut injected_real = Duration::ZERO;
+            if slow_reply_at == Some(i as u64) && replies[i].is_some() {
+                cx.probe("reply_after_more_than_50ms_of_real_time");
+                injected_real = Duration::from_millis(55 + cx.draw(71));
+                shared.lock().real_delay_next_read = Some(injected_real);
             }
             let start = (clock.now(), Instant::now());
             let slept0 = SLEPT_NS.with(|s| s.get());
@@ -773,12 +787,13 @@ impl Scenario for C18 {
             if !paced && !errored {
                 // delay added by the bus = what it slept (simulated) + real time spent in the call;
                 // the far end's simulated latency is the port's time, not a delay of the bus
-                let mut best = u128::from(slept) + end.1.duration_since(start.1).as_nanos();
+                // (what the simulator itself made the far end wait in real time is the port's time too)
+                let mut best = (u128::from(slept) + end.1.duration_since(start.1).as_nanos()).saturating_sub(injected_real.as_nanos());
                 let mut tries = 1;
                 while best >= u128::from(30 * MS) && tries < 5 {
                     tries += 1;
                     cx.probe("unpaced_exchange_repeated_for_noise");
-                    match measure_single(cx, m, &replies[i]) {
+                    match measure_single(cx, m, &replies[i], injected_real) {
                         Some(t) => best = best.min(t),
                         None => break,
                     }
@@ -859,10 +874,14 @@ impl Scenario for C18 {
 }
 
 /// One exchange on a fresh bus; returns simulated + real nanoseconds of `process_message`.
-fn measure_single(cx: &Cx, m: &Message<'static>, reply: &Option<Message<'static>>) -> Option<u128> {
+/// The far end answers after the same real delay as in the exchange under suspicion (subtracted again).
+fn measure_single(cx: &Cx, m: &Message<'static>, reply: &Option<Message<'static>>, far_end_real_delay: Duration) -> Option<u128> {
     let clock = SimClock::default();
     let incoming = reply.as_ref().map(|r| Frame::from(r.clone()).to_bytes_with_newline()).unwrap_or_default();
-    let wire = ScriptWire::new(cx, clock.clone(), incoming);
+    let mut wire = ScriptWire::new(cx, clock.clone(), incoming);
+    if far_end_real_delay > Duration::ZERO {
+        wire.real_delay_next_read = Some(far_end_real_delay);
+    }
     let port: Port = SimPort::new(wire, Device::default_odd());
     let mut bus = SerialSignBus::try_new(port).ok()?;
     let _g = install_sleep(&clock, cx);
@@ -870,7 +889,7 @@ fn measure_single(cx: &Cx, m: &Message<'static>, reply: &Option<Message<'static>
     let r = bus.process_message(m.clone());
     let e = (SLEPT_NS.with(|s| s.get()), Instant::now());
     r.ok()?;
-    Some(u128::from(e.0 - s.0) + e.1.duration_since(s.1).as_nanos())
+    Some((u128::from(e.0 - s.0) + e.1.duration_since(s.1).as_nanos()).saturating_sub(far_end_real_delay.as_nanos()))
 }
 
 // ---------------------------------------------------------------------------------------------
@@ -931,7 +950,14 @@ impl Scenario for C20 {
         if baud_unreported {
             cx.probe("prior_speed_unreported");
         }
-        let prior = SimSettings { baud: BaudRate2(baud), char_size: cs, parity, stop_bits: stop, flow, fail_set_baud: false, fail_kind: 0, baud_unreported };
+        // one prior state in eight holds a framing value the device cannot report (getter gives None)
+        let unreported = if cx.chance(1, 8) {
+            cx.probe("prior_framing_value_unreported");
+            1 + cx.draw(15) as u8
+        } else {
+            0
+        };
+        let prior = SimSettings { baud: BaudRate2(baud), char_size: cs, parity, stop_bits: stop, flow, fail_set_baud: false, fail_kind: 0, baud_unreported, unreported };
         let mut dev = Device::new(prior);
         dev.fail = fail;
         dev.fail_kind = cx.draw(crate::port::ERR_KINDS.len() as u64) as usize;
